@@ -172,6 +172,26 @@ def run(tier):
             nv += 1
             if nv <= 5:
                 ctx.violation({"layer": "history", "history": h, "run": k, "cases": [c], "why": "replaying the emitted schedule gave %s, the failure was %s" % (o, term)})
+    # the same under the real built-in schedulers, with programs that draw random data before they fail: the schedule of the
+    # failing execution (through its printed form) must reproduce that execution event by event, the drawn values included
+    import gen_prog
+    fcases = []
+    fails = ["sp1;rn;a0.add.1;rn;jn0;pn|rn;a0.add.2;rn", "rn;sp1;rn;pk;jn0|rn;pk", "sp1;rn;lk1;yd;rn;pn|rn;lk1;a0.add.1;ul1", "rn;rn;sp1;sp2;jn0;jn1;pn|rn;yd;rn|yd;rn;rn"]
+    for i in range(24 if tier == "quick" else 240):
+        kind = ["random", "pct", "urw", "random"][i % 4]
+        fcases.append("replay %s %d %d %d none a0,m %s" % (kind, rng.getrandbits(64), rng.randint(1, 3), rng.choice([1, 3, 6]), fails[i % len(fails)]))
+    fo = ctx.run_impl("prog", fcases)
+    ctx.evaluations += len(fcases)
+    nrep = 0
+    for c, o in zip(fcases, fo):
+        if o.endswith("ALLEQ") and " F=-" not in o:
+            nrep += 1
+        elif not o.endswith("ALLEQ"):
+            nv += 1
+            if nv <= 5:
+                ctx.violation({"layer": "prog", "cases": [c], "implementation_answer": o[:2500],
+                               "why": "the schedule of a failing execution under a built-in scheduler did not reproduce it (random data included)"})
+    stats["failing_runs_replayed_with_random_data"] = nrep
     ctx.cov["history_stats"] = stats
     ctx.cov["rule"] = ("histories of 1-5 configured runs (persistence none/print/file, same or new thread; deadlocks, panics in main / in a spawned thread / while holding a lock, exceeded FailAfter bounds, passing and stopped runs) "
                        "executed in ONE fresh process each; stderr is attributed to runs by markers, files by directory listing; each run must emit exactly what its own configuration prescribes; "
